@@ -344,8 +344,26 @@ def expand(init, hist, scratch, seed, only=None, do_edits=True):
         outcomes.add(_digest([k, TM._canon(obsR["chains"]), TM._canon(obsR["residues"]), TM._canon(obsR["atoms"]),
                               TM._canon([b[:6] for b in obsR["bonds"]])]))
         # 1. result == model
+        main_mis = set()
         for mis in compare4(exp, got):
+            main_mis.add((mis[0], mis[1]))
             bad(_sig_for(ev, mis, m, env), mis[2], [ev])
+        # 1b. other ways of reading the same file: a PDB read with standard_names=False must give the same topology
+        #     (every name in these fixtures is canonical or belongs to a residue the name tables do not know), and
+        #     an .h5 file read several times through ONE open handle (f.topology, f.read_as_traj, md.iterload chunks)
+        #     must give the stored topology every time, also after an earlier read's topology was edited
+        if k == "pdb":
+            stat["pdb_rawname_reads"] = stat.get("pdb_rawname_reads", 0) + 1
+            try:
+                R2 = md.load(env.path("pdb"), standard_names=False).topology
+                for mis in compare4(exp, TM.to_model(TM.observe(R2))):
+                    if (mis[0], mis[1]) in main_mis:
+                        continue        # same disagreement as the default read: reported there
+                    bad("pdb(standard_names=False)|%s|%s" % (mis[0], mis[1]), mis[2], [ev])
+            except Exception as e:
+                bad("pdb(standard_names=False)|raised|%s" % type(e).__name__, str(e)[:200], [ev])
+        if k == "h5" and do_edits:
+            _h5_handle_phase(P, R, ev, env, stat, bad)
         # 2. indices contiguous, accessors agree
         for s in obsR["struct"][:1]:
             bad("%s|indices|%s" % (k, _struct_class(s)), s, [ev])
@@ -431,6 +449,73 @@ def compare4(exp, got):
             badi = sorted(eb ^ gb)
         out.append((field, cls, detail, badi))
     return out
+
+
+H5_MODES = ("topology", "read_as_traj", "iterload")
+
+
+def _h5_open(env, path, mode):
+    """-> (read next topology through one open handle, close)"""
+    md = env.md
+    if mode == "iterload":
+        it = md.iterload(path, chunk=1)
+        return (lambda: next(it).topology), it.close
+    from mdtraj.formats import HDF5TrajectoryFile
+    f = HDF5TrajectoryFile(path)
+    if mode == "topology":
+        return (lambda: f.topology), f.close
+    return (lambda: f.read_as_traj(n_frames=1).topology), f.close
+
+
+def _h5_handle_phase(P, R, ev, env, stat, bad):
+    """One open handle on a 3-frame .h5 of P, three reads; ONE edit is applied to the first topology read before the
+    second read, and to the second before the third.  Every read must equal the topology md.load() gave (R, already
+    compared with the model) and an earlier read's topology must not change when a later one is edited."""
+    import numpy as np
+    md = env.md
+    path = env.path("handle.h5")
+    md.Trajectory(np.repeat(_xyz(P.n_atoms, env.seed), 3, axis=0), P).save(path)
+    snapR = TM.snapshot(R)
+
+    def diff(s):
+        return "+".join(TM.SNAP_PARTS[p] for p in range(len(s)) if s[p] != snapR[p])
+
+    for mode in H5_MODES:
+        for ed in EDITS:
+            if ed == "add_bond" and R.n_atoms < 2:
+                continue
+            stat["h5_handle_runs"] = stat.get("h5_handle_runs", 0) + 1
+            read, close = _h5_open(env, path, mode)
+            try:
+                a = read()
+                if TM.snapshot(a) != snapR:
+                    bad("h5-handle|%s|first-read|differs-from-load.%s" % (mode, diff(TM.snapshot(a))),
+                        "first read through the handle differs from md.load of the same file", [ev])
+                    continue
+                apply_edit(a, ed)
+                sa = TM.snapshot(a)
+                b = read()
+                if TM.snapshot(b) != snapR:
+                    bad("h5-handle|%s|edit=%s@first-read|changed=second-read.%s" % (mode, ed, diff(TM.snapshot(b))),
+                        "after %s on the topology of the first read, the second read through the same handle no longer "
+                        "returns the stored topology" % ed, [ev])
+                    continue
+                apply_edit(b, ed)
+                if TM.snapshot(a) != sa:
+                    bad("h5-handle|%s|edit=%s@second-read|changed=first-read" % (mode, ed),
+                        "editing the topology of the second read changed the topology of the first read", [ev])
+                c = read()
+                if TM.snapshot(c) != snapR:
+                    bad("h5-handle|%s|edit=%s@second-read|changed=third-read.%s" % (mode, ed, diff(TM.snapshot(c))),
+                        "after %s on the topology of the second read, the third read no longer returns the stored "
+                        "topology" % ed, [ev])
+            except Exception as e:
+                bad("h5-handle|%s|raised|%s" % (mode, type(e).__name__), "%s: %s" % (type(e).__name__, str(e)[:200]), [ev])
+            finally:
+                try:
+                    close()
+                except Exception:
+                    pass
 
 
 def _edit_phase(lineage, R, ev, env, stat, bad):
@@ -553,7 +638,10 @@ def run(ctx):
     cov = {
         "states": len(seen),
         "transitions": stat.get("transitions", 0),
-        "traces_validated_against_impl": stat.get("transitions", 0) + stat.get("twin_runs", 0) + stat.get("edits", 0),
+        "traces_validated_against_impl": stat.get("transitions", 0) + stat.get("twin_runs", 0) + stat.get("edits", 0)
+        + stat.get("h5_handle_runs", 0) + stat.get("pdb_rawname_reads", 0),
+        "h5_one_handle_protocols": stat.get("h5_handle_runs", 0), "h5_handle_modes": list(H5_MODES),
+        "pdb_reads_with_standard_names_False": stat.get("pdb_rawname_reads", 0),
         "samples": [dict(x, then_one_edit_of=EDITS, on="every topology of the lineage and the result, in turn")
                     for x in samples],
         "exhaustive": True,
